@@ -48,6 +48,8 @@ type universe struct {
 	draw    func(t *rapid.T) []byte
 	// fan profile: the window of branch keys for bulk actions
 	bulk func(t *rapid.T, n int) [][]byte
+	// giant profile: the long stem (scripted shapes around it are built by History.giantMerge)
+	stem []byte
 }
 
 var boundaryBytes = []byte{0x01, 0x02, 'a', 'b', 0x7e, 0x7f, 0x80, 0x81, 0xfe, 0xff}
@@ -136,11 +138,13 @@ func bytesUniverse(t *rapid.T, k Kind, profile string) *universe {
 	case "giant":
 		// keys around the 8-bit and 16-bit length boundaries (a length or path-length field narrowed
 		// "to save space" only shows with such keys)
-		l := pick(t, []int{255, 256, 257, 511, 512, 513, 1023, 1024, 1025, 4095, 4096, 4097, 65535, 65536, 65537, 70000}, "giantlen")
+		l := pick(t, []int{255, 256, 257, 258, 260, 265, 511, 512, 513, 1023, 1024, 1025, 4095, 4096, 4097,
+			65535, 65536, 65537, 65538, 65539, 65541, 65544, 65545, 65546, 70000}, "giantlen")
 		stem := make([]byte, l)
 		for i := range stem {
 			stem[i] = 'a' + byte(i%7)
 		}
+		u.stem = stem
 		alt := clone(stem)
 		alt[l-3] ^= 1
 		tails := [][]byte{nil, []byte("a"), []byte("b"), []byte("ab"), []byte("\x80")}
